@@ -712,7 +712,18 @@ ACTIONS = ("BSetN", "BUpdateN", "BSetNs", "BScale", "BClear", "BAddMass", "BRemo
 
 def replay_config(rep, cfg, env, families, label, max_edges=None, seed=0, weight_free_too=True, dt=True, narrow=False):
     """emit every state/edge of one configuration and execute it on the real trees"""
+    import time as _t
+    t0 = _t.time()
     res = run_tlc("Inventory_mc", cfg, env, workers=1, coverage=False)
+    rep.extra.setdefault("phase_s", {})[label + ":wait-for-tlc"] = round(_t.time() - t0, 1)
+    t0 = _t.time()
+    try:
+        return _replay_config(rep, res, cfg, env, families, label, max_edges, seed, weight_free_too, dt, narrow)
+    finally:
+        rep.extra["phase_s"][label + ":replay"] = round(_t.time() - t0, 1)
+
+
+def _replay_config(rep, res, cfg, env, families, label, max_edges, seed, weight_free_too, dt, narrow):
     if res.violation:
         rep.violation("tlc:" + res.violation["name"], "TLC: %s violated in Inventory (%s)" % (res.violation["name"], cfg),
                       {"direction": "tlc", "cfg": cfg, "trace": res.violation["trace"][:20000]})
@@ -831,7 +842,35 @@ def run(rep, tier, seed):
         pending.append((tname, cfg, tree, traces,
                         pool.submit(tracecheck.validate, "Inventory_trace", cfg, MODDIR, traces, timeout=3000, env=env)))
 
-    # 1. exhaustive TLC: read-back clauses on every edge two edits deep (accounting clauses are checked in step 2's runs)
+    # 2. accounting clauses on every state one edit away + spec -> code on every emitted state and edge
+    fams = list(gb.FAMILIES)
+    seen = set()
+    for cfg, label in (("Inventory_blk_acct.cfg", "block-tree"), ("Inventory_core_acct.cfg", "third-core-tree"),
+                       ("Inventory_edge_acct.cfg", "edge-assemblies-tree")):
+        names, _ = replay_config(rep, cfg, env, fams, label, seed=seed, narrow=not thorough)
+        seen |= names
+    # a block whose Void gap has a (legal) negative hot area: read-back and additivity with a negative child volume
+    names, _ = replay_config(rep, "Inventory_gap_acct.cfg", env, ["gap"], "closed-gap-block", seed=seed, narrow=not thorough)
+    seen |= names
+    # histories three edits deep around a height change (edit above the block ; setHeight ; edit above it again): what a value
+    # cached above the block across the geometry change would break
+    names, _ = replay_config(rep, "Inventory_core_geom_emit%s.cfg" % ("_thorough" if thorough else ""), env, fams, "height-change-histories",
+                             seed=seed, dt=False, max_edges=(5000 if thorough else 800), narrow=True)
+    seen |= names
+    if thorough:
+        for fam in fams:  # every family on every edge of the two deep emissions
+            replay_config(rep, "Inventory_blk_emit_thorough.cfg", env, [fam], "block-tree-2-edits:" + fam, seed=seed, dt=(fam == "circle"),
+                          weight_free_too=(fam == "hot"), max_edges=(6000 if fam == "circle" else 2500))
+        replay_config(rep, "Inventory_core_emit_thorough.cfg", env, fams, "third-core-tree-2-edits", seed=seed, dt=False, max_edges=5000)
+        replay_config(rep, "Inventory_gap_emit_thorough.cfg", env, ["gap"], "closed-gap-block-2-edits", seed=seed, dt=False, max_edges=4000)
+    need = {"SetN", "SetN!", "UpdateN", "SetNs", "Scale", "Clear", "AddMass", "AddMass!", "RemoveMass", "SetMass", "SetMass!",
+            "SetMassFracs", "SetMassFracs!", "AddMasses", "AddMasses!", "SetMasses", "SetMasses!", "SetHeight", "SetHeight!",
+            "AdjustDensity", "AdjustEnrich", "AdjustMF", "AdjustMF!"}
+    seen = {x.rstrip("!") if x.startswith("Scale") else x for x in seen}
+    if need - seen:
+        raise tlc.MachineryError("vacuous: never replayed: %s" % sorted(need - seen))
+
+    # 1. (collected after the replays: the JVMs have been running since the start) exhaustive TLC: read-back clauses on every edge two edits deep (accounting clauses are checked in step 2's runs)
     if not _SELFTEST:
         for cfg in mc:
             # TLC's coverage instrumentation costs a factor ten here: the deep run goes without it, non-vacuity comes from the same
@@ -868,34 +907,6 @@ def run(rep, tier, seed):
             w_, repro = what.get(name, (name, ""))
             rep.violation("tlc:" + name, "%s (the code conforms to Inventory with the designs %s on every replayed edge; TLC: %s violated)" % (
                 w_, json.dumps(env), name), {"direction": "tlc", "design": env, "trace": trace[:8000], "reproducer": repro})
-
-    # 2. accounting clauses on every state one edit away + spec -> code on every emitted state and edge
-    fams = list(gb.FAMILIES)
-    seen = set()
-    for cfg, label in (("Inventory_blk_acct.cfg", "block-tree"), ("Inventory_core_acct.cfg", "third-core-tree"),
-                       ("Inventory_edge_acct.cfg", "edge-assemblies-tree")):
-        names, _ = replay_config(rep, cfg, env, fams, label, seed=seed, narrow=not thorough)
-        seen |= names
-    # a block whose Void gap has a (legal) negative hot area: read-back and additivity with a negative child volume
-    names, _ = replay_config(rep, "Inventory_gap_acct.cfg", env, ["gap"], "closed-gap-block", seed=seed, narrow=not thorough)
-    seen |= names
-    # histories three edits deep around a height change (edit above the block ; setHeight ; edit above it again): what a value
-    # cached above the block across the geometry change would break
-    names, _ = replay_config(rep, "Inventory_core_geom_emit%s.cfg" % ("_thorough" if thorough else ""), env, fams, "height-change-histories",
-                             seed=seed, dt=False, max_edges=(5000 if thorough else 800), narrow=True)
-    seen |= names
-    if thorough:
-        for fam in fams:  # every family on every edge of the two deep emissions
-            replay_config(rep, "Inventory_blk_emit_thorough.cfg", env, [fam], "block-tree-2-edits:" + fam, seed=seed, dt=(fam == "circle"),
-                          weight_free_too=(fam == "hot"), max_edges=(6000 if fam == "circle" else 2500))
-        replay_config(rep, "Inventory_core_emit_thorough.cfg", env, fams, "third-core-tree-2-edits", seed=seed, dt=False, max_edges=5000)
-        replay_config(rep, "Inventory_gap_emit_thorough.cfg", env, ["gap"], "closed-gap-block-2-edits", seed=seed, dt=False, max_edges=4000)
-    need = {"SetN", "SetN!", "UpdateN", "SetNs", "Scale", "Clear", "AddMass", "AddMass!", "RemoveMass", "SetMass", "SetMass!",
-            "SetMassFracs", "SetMassFracs!", "AddMasses", "AddMasses!", "SetMasses", "SetMasses!", "SetHeight", "SetHeight!",
-            "AdjustDensity", "AdjustEnrich", "AdjustMF", "AdjustMF!"}
-    seen = {x.rstrip("!") if x.startswith("Scale") else x for x in seen}
-    if need - seen:
-        raise tlc.MachineryError("vacuous: never replayed: %s" % sorted(need - seen))
 
     # 3. code -> spec: random edit histories on the real trees, validated by TLC
     for tname, cfg, tree, traces, fut in pending:
